@@ -510,8 +510,10 @@ MANIFEST = dict(
          "conversion accepts exactly the values in the type's range and passes them unchanged (OverflowError otherwise); "
          "set_source() modules dispatch to the same backend functions; results convert back to the C value; verify() "
          "accepts a non-partial struct exactly when set_source() does and both then hold the compiler's layout; for '...' "
-         "structs verify() performs the same backend call as the set_source route. Tie: Gen.v regenerated from the three "
-         "sources; three builds per case compared on all observations.",
+         "structs verify() performs the same backend call as the set_source route. The generic engine has NO model: "
+         "its agreement with set_source(), like function results, globals, constants and pointer/struct arguments, is "
+         "decided by the correspondence run only. Tie: Gen.v regenerated from the three sources; three builds per case "
+         "compared on all observations (incl. pointer parameters given partial initialisers).",
     note="Partial: engines and compiler exercised by sampling; generic-engine conversions are not modelled (compared by "
          "running); bitfields, open arrays and anonymous structs not generated.",
     design_ref="DESIGN.md §4 C33")
